@@ -93,7 +93,8 @@ def gen_history(rng: _pyrandom.Random, max_ops: int = 12, max_rows: int = 40, ma
         F = max(F, 64)
         cfg["thr"], cfg["crit"], cfg["tol"] = 0.5, rng.choice(["diameter", "radius"]), None
         pa = [1 if rng.random() < 0.5 else 0 for _ in range(F)]
-        pb = [1 - b if j % 2 == 0 else b for j, b in enumerate(pa)]
+        pa[0], pa[1] = 1, 0
+        pb = [1 - b for b in pa]          # the complement: the two families never merge (half-complements often did)
         rows = [[b ^ (1 if rng.random() < 0.02 else 0) for b in pa] for _ in range(rng.choice([300, 320]))] \
             + [[b ^ (1 if rng.random() < 0.02 else 0) for b in pb] for _ in range(rng.choice([270, 290]))]
         rng.shuffle(rows)
